@@ -8,7 +8,7 @@ import optcheck
 import optgen
 import optrun
 import optoracle
-from optmodel import parse_observed
+from optmodel import parse_observed, check_indices
 
 PROP = "C02"
 LEVEL = "exploration"
@@ -250,6 +250,8 @@ def gen(tier, seed, chunk, nch):
     n = (20000 if tier == "quick" else 500000) // nch
     for _ in range(n):
         d = _decl(rng)
+        if rng.random() < 0.1:
+            d["moved"] = rng.choice(["MOVE", "MOVEA"])
         scale = rng.random() < 0.02
         asg = _assignment(rng, d, typed=True, scale=scale)
         argv, forms = _render(rng, d, asg)
@@ -263,7 +265,7 @@ def gen(tier, seed, chunk, nch):
         if rng.random() < 0.3 and all(_constructible(t) for t in argv):
             # the parse(std::vector<user_input>) overload spells the same assignment (only vectors whose tokens can
             # be turned into user_input objects at all: a lone `-`, `---x`, `-=x` cannot, that is the caller's error)
-            case["mode"] = "V"
+            case["mode"] = rng.choice(["V", "V", "W"])
         cases.append(case)
     return cases
 
@@ -332,6 +334,10 @@ def evaluate(case, lines, S):
                 diffs.append(("provided", "toggle %r provided flag wrong" % n))
     if ob.pos != asg["pos"]:
         diffs.append(("positionals", "positionals: spelled %r, parsed %r" % (asg["pos"], ob.pos)))
+    elif len(ob.pos) <= 300:
+        bad = check_indices(ob)     # the ordered list as seen through get(i) / operator[] for every index, both signs
+        if bad:
+            diffs.append(("positional-index-access", "; ".join(bad[:3])))
     tl = [l for l in lines if l.startswith("T ")]
     for (kind, name, idx, ty, txt), l in zip(asg.get("typed", []), tl):
         S.counters["typed:" + ty] += 1
